@@ -153,6 +153,9 @@ def run_case(case, ctx):
         radix = case['radix']
         share = SHARE[case['share']]
         complete = False
+        ptxt = prog.source().decode('latin-1').lower()
+        # one target and no byte-order switch: the code file has one byte order for multi-byte listing units
+        single_order = len(re.findall(r'^\S*\s+cpu\s', ptxt, re.M)) <= 1 and 'endian' not in ptxt
         tag = '%s radix %d' % (prog.name, radix)
         base = prog.name
     else:
@@ -164,6 +167,7 @@ def run_case(case, ctx):
         radix = rng.choice(RADIXES)
         share = rng.choice(SHARE)
         complete = True
+        single_order = True
         tag = 'generated #%d radix %d' % (ctx.idx, radix)
         base = 'g'
     out.sample = {'program': tag, 'share': share[1]}
@@ -196,7 +200,7 @@ def run_case(case, ctx):
     for e in ev:
         by_line.setdefault(int(e['line']), []).append(e)
     used = set()
-    order_seen = set()
+    order_seen = {}
     ngroups = 0
     for g in groups:
         if 'bad' in g:
@@ -221,17 +225,19 @@ def run_case(case, ctx):
             if eaddr != g['addr']:
                 continue
             data = bytes.fromhex(e['hex'])
+            orders = []
             for order in ('big', 'little'):
                 b = units_to_bytes(g['units'], radix, order)
                 if b is not None and (b == data or (len(b) < len(data) and data.startswith(b))):
-                    hit = (e, order)
-                    break
-            if hit:
+                    orders.append(order)
+            if orders:
+                hit = (e, orders)
                 break
         if hit:
             used.add(id(hit[0]))
-            if any(len(t) > unit_width(radix, 1) for t in g['units']):
-                order_seen.add(hit[1])
+            if len(hit[1]) == 1:
+                # the group reads differently in the two byte orders: it tells which one this program's code file uses
+                order_seen.setdefault(hit[1][0], (g['line'], g['addr'], g['units'][:4]))
             out.obs['listing_groups_matched'] += 1
             continue
         # classify the miss
@@ -261,6 +267,11 @@ def run_case(case, ctx):
         else:
             out.violate('listing:bytes-wrong', '%s: line %d at %#x lists %s, emitted %s' % (tag, g['line'], g['addr'], g['units'][:8], [e['hex'][:24] for e in cands][:2]))
         break
+    if len(order_seen) == 2 and single_order:
+        out.violate('listing:unit-byte-order-inconsistent', '%s: one target, one byte order in the code file, yet the listing shows line %s in the file\'s order and line %s byte-reversed' % (
+            tag, order_seen['big' if order_seen['big'][0] <= order_seen['little'][0] else 'little'], order_seen['little' if order_seen['big'][0] <= order_seen['little'][0] else 'big']))
+    elif order_seen and single_order:
+        out.obs['programs_with_unit_byte_order_decided'] += 1
     if complete:
         for e in ev:
             if id(e) not in used and int(e['len']) > 0:
